@@ -569,6 +569,12 @@ func (st *State) storeTyped(addr V, val V, t types.Type) {
 		case KPtr:
 			st.storeN(space, a, vs[i].T, 8)
 			if old, ok := st.shadow[space+"@"+a]; ok && strings.HasPrefix(old.Space, "H:sep") {
+				// (a nil pointer belongs to no region: clearing the slot, as the in-place form of `*p = T{...}` does
+				// before it stores the fields, is fine; the slice is simply empty until something is stored again)
+				if lv, _, isLit := litVal(vs[i].T); isLit && lv == 0 {
+					delete(st.shadow, space+"@"+a)
+					continue
+				}
 				if vs[i].Prov == nil || vs[i].Prov.Space != old.Space {
 					unsup("a slice declared 'separate' is replaced by one that is not in its region")
 				}
